@@ -20,6 +20,7 @@ CONSTANTS V,        \* validator instances
           Global,   \* TRUE: one process-wide finish timestamp (deviation D16); FALSE: one per instance
           D,        \* a refresh pass lasts at most D time units (the refresh mutex is held meanwhile)
           DropWhenBusy, \* TRUE: a tick that finds the refresh mutex taken is dropped instead of waiting (deviation)
+          LeakOnSibling, \* TRUE: cleaning up another instance whose provisioning failed leaves the refresh mutex taken (deviation)
           Export
 
 Cap == B * I + 1
@@ -31,8 +32,10 @@ VARIABLES clk,        \* [V -> 0..I-1]  phase clock of each instance's ticker; t
           since,      \* [V -> 0..Cap]  time since instance v last re-fetched its CRLs
           fails,      \* [V -> 0..2]    consecutive failed refreshes of v (the outcome is the environment's choice)
           holder,     \* the instance whose pass is in progress (holds the process-wide refresh mutex), or "none"
-          busy        \* 0..D           time the current pass has lasted
-vars == <<clk, due, age, since, fails, holder, busy>>
+          busy,       \* 0..D           time the current pass has lasted
+          sib         \* 0..1           another validator instance has come and gone in this process (a reload that was rejected
+                      \*                or replaced: provisioned - successfully or not - and cleaned up); once per behaviour
+vars == <<clk, due, age, since, fails, holder, busy, sib>>
 
 Key(v) == IF Global THEN CHOOSE w \in V : TRUE ELSE v
 Min(a, b) == IF a < b THEN a ELSE b
@@ -42,19 +45,19 @@ Init == /\ clk \in [V -> 0..I-1]
         /\ age = [v \in V |-> NoStamp]
         /\ since = [v \in V |-> 0]
         /\ fails = [v \in V |-> 0]
-        /\ holder = "none" /\ busy = 0
+        /\ holder = "none" /\ busy = 0 /\ sib = 0
 
 \* time.Since(lastFinish) < interval/2
 Recent(v) == age[Key(v)] # NoStamp /\ 2 * age[Key(v)] < I
 
-Emit(op, o) == Export => PrintT(<<"EDGE", ToJson([from |-> [clk |-> clk, due |-> due, age |-> age, since |-> since, fails |-> fails, holder |-> holder, busy |-> busy], op |-> op,
-                                                    to |-> [clk |-> clk', due |-> due', age |-> age', since |-> since', fails |-> fails', holder |-> holder', busy |-> busy'], expect |-> o])>>)
+Emit(op, o) == Export => PrintT(<<"EDGE", ToJson([from |-> [clk |-> clk, due |-> due, age |-> age, since |-> since, fails |-> fails, holder |-> holder, busy |-> busy, sib |-> sib], op |-> op,
+                                                    to |-> [clk |-> clk', due |-> due', age |-> age', since |-> since', fails |-> fails', holder |-> holder', busy |-> busy', sib |-> sib'], expect |-> o])>>)
 
 \* a ticker tick of instance v gets the refresh mutex: it is skipped iff a pass of v finished less than half an interval
 \* ago, otherwise a pass over every known location starts. A tick that finds the mutex taken WAITS (it stays due).
 TickBegin(v) ==
   /\ v \in due /\ holder = "none" /\ due' = due \ {v}
-  /\ UNCHANGED <<clk, age, since, fails, busy>>
+  /\ UNCHANGED <<clk, age, since, fails, busy, sib>>
   /\ IF Recent(v)
      THEN holder' = holder /\ Emit(<<"tickbegin", v>>, [decision |-> "skip"])
      ELSE holder' = v /\ Emit(<<"tickbegin", v>>, [decision |-> "run"])
@@ -62,7 +65,7 @@ TickBegin(v) ==
 \* deviation: the tick gives up when another pass is in progress
 TickDropped(v) ==
   /\ DropWhenBusy /\ v \in due /\ holder # "none" /\ holder # v /\ due' = due \ {v}
-  /\ UNCHANGED <<clk, age, since, fails, holder, busy>>
+  /\ UNCHANGED <<clk, age, since, fails, holder, busy, sib>>
   /\ Emit(<<"tickdropped", v>>, [decision |-> "dropped"])
 
 \* the pass of v finishes: every known location was fetched again, whatever the outcome of the previous attempts
@@ -71,7 +74,7 @@ TickEnd(v, ok) ==
   /\ since' = [since EXCEPT ![v] = 0]
   /\ age' = [w \in V |-> IF Key(w) = Key(v) THEN 0 ELSE age[w]]
   /\ fails' = [fails EXCEPT ![v] = IF ok THEN 0 ELSE Min(@ + 1, 2)]
-  /\ UNCHANGED <<clk, due>>
+  /\ UNCHANGED <<clk, due, sib>>
   /\ Emit(<<"tickend", v, ok>>, [decision |-> "done"])
 
 \* time passes when no tick is waiting to be processed, or while a pass is in progress (at most D units per pass)
@@ -82,10 +85,20 @@ Advance ==
   /\ age' = [v \in V |-> IF age[v] = NoStamp THEN NoStamp ELSE Min(age[v] + 1, I)]
   /\ since' = [v \in V |-> Min(since[v] + 1, Cap)]
   /\ busy' = IF holder = "none" THEN 0 ELSE busy + 1
-  /\ UNCHANGED <<fails, holder>>
+  /\ UNCHANGED <<fails, holder, sib>>
   /\ Emit(<<"advance">>, [decision |-> "none"])
 
-Next == Advance \/ \E v \in V : TickBegin(v) \/ TickDropped(v) \/ \E ok \in BOOLEAN : TickEnd(v, ok)
+\* another instance is provisioned in this process and cleaned up again (kind: its provisioning failed because the work_dir is in
+\* use / does not exist, or it succeeded): nothing of the instances in V changes.  Deviation LeakOnSibling: the clean-up of an
+\* instance that never got a repository leaves the refresh mutex taken - by nobody who will ever release it.
+Sibling(kind) ==
+  /\ sib = 0 /\ sib' = 1 /\ holder = "none"
+  /\ holder' = IF LeakOnSibling /\ kind # "ok" THEN "leaked" ELSE holder
+  /\ UNCHANGED <<clk, due, age, since, fails, busy>>
+  /\ Emit(<<"sibling", kind>>, [decision |-> "none"])
+
+Next == Advance \/ (\E v \in V : TickBegin(v) \/ TickDropped(v) \/ \E ok \in BOOLEAN : TickEnd(v, ok))
+        \/ \E kind \in {"inuse", "missing", "ok"} : Sibling(kind)
 Spec == Init /\ [][Next]_vars /\ WF_vars(Next)
 
 (* =============================== properties ============================= *)
@@ -93,5 +106,5 @@ Spec == Init /\ [][Next]_vars /\ WF_vars(Next)
 BoundedRefresh == \A v \in V : since[v] <= B * I
 \* ... forever (checked on the complete graph under weak fairness)
 Live == \A v \in V : []<>(since[v] = 0)
-TypeOK == clk \in [V -> 0..I-1] /\ due \subseteq V /\ holder \in V \cup {"none"} /\ busy \in 0..D
+TypeOK == clk \in [V -> 0..I-1] /\ due \subseteq V /\ holder \in V \cup {"none", "leaked"} /\ busy \in 0..D /\ sib \in 0..1
 =============================================================================
